@@ -1,6 +1,6 @@
 """C07 — ParFront partition is respected by every optimal consensus; consistent_with is exact."""
 from hypothesis import strategies as st
-from vlib import gen, lib, oracle
+from vlib import gen, lib, oracle, mutate
 from vlib.harness import HypSub
 from vlib.lib import Violation
 from checks.c06 import model_partition, partition_views
@@ -45,19 +45,29 @@ def parfront_cases(draw, tier):
     schemes = [draw(st.one_of(gen.free_schemes(), gen.tie_averse_schemes(), gen.near_presets())),
                draw(st.one_of(gen.free_schemes(), gen.preset_multiples()))]
     ds = draw(gen.datasets(max_n=7 if tier == "thorough" else 6, min_n=2, max_m=6, shapes=SHAPES))
-    return {"schemes": schemes, "dataset": ds}
+    # one dataset in five is a Dataset OBJECT that was used (partitions computed, matrices read) and then mutated in
+    # place down to these rankings (vlib/mutate.py): whatever it remembers must not reach the partitions
+    return {"schemes": schemes, "dataset": ds, "via_mutation": draw(mutate.via_strategy(ds["rankings"], p=5))}
 
 
 def check_parfront(case, ctx):
     if "scheme" in case:            # replay files recorded before schemes were batched
         return check_parfront_one({"scheme": case["scheme"], "dataset": case["dataset"]}, ctx)
+    d = None
+    if case.get("via_mutation"):
+        s0 = lib.mk_scheme(case["schemes"][0])
+
+        def warm(d0):
+            OrderedPartition.parfront_partition(d0, s0)
+            OrderedPartition.parcons_partition(d0, s0)
+        d = mutate.build(case["dataset"]["rankings"], case["via_mutation"], warm)
     for scheme in case["schemes"] + FIXED_SCHEMES:
-        check_parfront_one({"scheme": scheme, "dataset": case["dataset"]}, ctx)
+        check_parfront_one({"scheme": scheme, "dataset": case["dataset"]}, ctx, d)
 
 
-def check_parfront_one(case, ctx):
+def check_parfront_one(case, ctx, d=None):
     rankings, scheme = case["dataset"]["rankings"], case["scheme"]
-    d, s = lib.mk_dataset(rankings), lib.mk_scheme(scheme)
+    d, s = (d if d is not None else lib.mk_dataset(rankings)), lib.mk_scheme(scheme)
     inst = oracle.Instance(rankings, scheme)
     pf = lib.must(OrderedPartition.parfront_partition, d, s)
     pc = lib.must(OrderedPartition.parcons_partition, d, s)
